@@ -902,8 +902,13 @@ def run_fingerprint_case(arg):
         env = dict(case["host"])
         env["HOME"] = home
         env["C13_STDIN"] = case["stdin"]
-        p = subprocess.run([python, c13proj.CHILD, repo, base, json.dumps(["_invoke", "step.spec", "fingerprint"])], env=env,
+        capture = os.path.join(base, "capture.jsonl")
+        p = subprocess.run([python, c13proj.CHILD, repo, base, json.dumps(["_invoke", "step.spec", "fingerprint"]), capture], env=env,
                            stdout=subprocess.PIPE, stderr=subprocess.PIPE, stdin=subprocess.DEVNULL, timeout=300)
+        try:
+            res["capture"] = [json.loads(l) for l in open(capture, encoding="utf-8", errors="surrogateescape")]
+        except OSError:
+            res["capture"] = []
         res["rc"] = p.returncode
         res["err"] = p.stderr.decode("utf-8", "replace")[-500:]
         res["env"] = c13proj.parse_environ(p.stdout)
@@ -1155,16 +1160,18 @@ def correspond_projects(ctx):
                                {"env": strip_internal(st["env"]), "procEnv": cap[-1]["env"] if cap else None, "positional": st["args"]},
                                lambda m: {"env": strip_internal(m["env"] or {}), "procEnv": m["procEnv"], "positional": m["positional"]}))
         if case["root"]["fingerprint"] and res.get("fp_env") is not None:
-            cap = [c for c in res.get("capture", []) if c["argv"][:2] == ["bash", "-c"]]
+            cap = [c for c in res.get("capture", []) if c["argv"][0] == "bash" and "-c" in c["argv"][:-1]]
             if cap:
                 pkg_env = res["steps"]["root/dist"]["spec"]["env"] if "root/dist" in res["steps"] else {}
                 fp_proc = cap[-1]["env"]
                 reqs.append({"op": "fingerprint", "stepEnv": pkg_env, "fpVars": case["root"]["fpVars"], "procEnv": fp_proc})
-                script = cap[-1]["argv"][2]
+                script = cap[-1]["argv"][-1]
                 got_env = strip_internal(res["fp_env"])
-                checks.append(("fingerprint script: preamble text and environment == Model.fingerprintPreamble", {"project": case["idx"]},
-                               {"env": got_env, "head": True},
-                               lambda m, script=script: {"env": strip_internal(m["env"] or {}), "head": script.startswith(m["preamble"] + "\n")}))
+                checks.append(("fingerprint script: argv, preamble text and environment == Model (setupFingerprintArgs, fingerprintPreamble)",
+                               {"project": case["idx"]},
+                               {"env": got_env, "head": True, "argv": cap[-1]["argv"][:-1]},
+                               lambda m, script=script: {"env": strip_internal(m["env"] or {}), "head": script.startswith(m["preamble"] + "\n"),
+                                                         "argv": m["argvHead"]}))
     if not reqs:
         return
     replies = ctx.lean(DRIVER, reqs)
@@ -1189,13 +1196,18 @@ def correspond_fingerprint(ctx):
         proc = {k: v for k, v in case["host"].items() if k in case["whitelist"]}
         proc["HOME"] = res["home"]
         proc["BOB_CWD"] = got.get("BOB_CWD", "")
-        reqs.append({"op": "fingerprint", "stepEnv": case["stepEnv"], "fpVars": case["fpVars"], "procEnv": proc})
-        checks.append((case, res["script"], got))
+        reqs.append({"op": "fingerprint", "stepEnv": case["stepEnv"], "fpVars": case["fpVars"], "procEnv": proc, "trace": False,
+                     "stdinSocket": case["stdin"] == "socket"})
+        argv = [c["argv"] for c in res.get("capture", []) if "-c" in c["argv"][:-1]]
+        checks.append((case, res["script"], got, argv[-1][:-1] if argv else None, "LEAKED_FROM_BASHRC" in res["env"]))
     if not reqs:
         return
-    for (case, script, got), m in zip(checks, ctx.lean(DRIVER, reqs)):
+    for (case, script, got, argv, leaked), m in zip(checks, ctx.lean(DRIVER, reqs)):
         ctx.case(("fingerprint-corr", case))
-        if m.get("err") is not None or not script.startswith(m["preamble"] + "\n"):
+        if argv != m["argvHead"] or leaked != m["readsRc"]:
+            ctx.disagree("argv of BashLanguage.setupFingerprint == Model.setupFingerprintArgs (and bash read ~/.bashrc iff Model.bashReadsRc)",
+                         case, {"argv": argv, "bashrc_sourced": leaked}, {"argv": m["argvHead"], "bashrc_sourced": m["readsRc"]})
+        elif m.get("err") is not None or not script.startswith(m["preamble"] + "\n"):
             ctx.disagree("BashLanguage.mangleFingerprints text starts with Model.fingerprintPreamble", case, script[:300], m.get("preamble", m))
         elif strip_internal(m["env"]) != got:
             ctx.disagree("environment of the fingerprint script (bob _invoke) == Model (fingerprintEnvOf, evalScript)", case, got, m["env"])
